@@ -479,7 +479,7 @@ def gen_value(rng, l, D, TOL, dtype, is_int, extreme=False):
         x = representable(fr, dtype)
         if x is None or rng.random() < 0.4:
             try:
-                x = float(fr) * (1 + rng.choice([-1, 1]) * 2.0 ** -rng.choice([8, 16, 30]))
+                x = float(fr) * (1 + rng.choice([-1, 1]) * 2.0 ** -rng.choice([8, 16, 20, 24, 30]))
             except OverflowError:
                 x = l
     elif m < 0.50:
@@ -487,7 +487,8 @@ def gen_value(rng, l, D, TOL, dtype, is_int, extreme=False):
     elif m < 0.60:
         x = l * rng.choice([1.5, 2.0, 10.0, 1 + 2.0 ** -20])
     elif m < 0.70:
-        x = TOL * rng.choice([1.0, 1.0, 1 - 2.0 ** -10, 1 + 2.0 ** -10, 0.5, 2.0])
+        x = TOL * rng.choice([1.0, 1.0, 1 - 2.0 ** -10, 1 + 2.0 ** -10, 1 - 2.0 ** -20, 1 + 2.0 ** -20, 1 + 2.0 ** -30, 0.5, 2.0]) \
+            if TOL != 0 else rng.choice([0.0, 1e-9, -1e-9, 1e-12, 1e-7])
     elif m < 0.75:
         x = 0.0
     elif m < 0.82:
@@ -503,7 +504,7 @@ def gen_value(rng, l, D, TOL, dtype, is_int, extreme=False):
 SHAPES = [[1], [2], [3], [4], [2, 2], [1, 3], [3, 1], [2, 1, 2], [5], [3, 2], [7], [3, 3], [1, 1], [2, 3], [3, 1, 1], [0], [11]]
 LAYOUTS = ["fresh", "fresh", "fresh", "slice", "strided", "expanded"]
 STATE_KEYS = {"steps", "patience_count", "_continual", "last", "seen"}     # "seen": counter of the user subclass
-KLASSES = ["lib", "lib", "sub", "sub_step"]
+KLASSES = ["lib", "lib", "sub", "sub_step", "sub_prop"]
 
 
 GRADS = ["plain", "plain", "requires_grad", "no_grad", "inference"]
@@ -961,7 +962,7 @@ def gen_sop_case(ctx: Ctx, n_max):
             elif m < 0.4:
                 x = representable(Fraction(last) - Fraction(D), dtype)
                 if x is None or rng.random() < 0.4:
-                    x = (last - D) * (1 + rng.choice([-1, 1]) * 2.0 ** -rng.choice([8, 20, 40]))
+                    x = (last - D) * (1 + rng.choice([-1, 1]) * 2.0 ** -rng.choice([8, 20, 24, 40]))
             elif m < 0.6:
                 x = last
             elif m < 0.7:
@@ -984,7 +985,7 @@ def gen_sop_case(ctx: Ctx, n_max):
         loss = x
     ctx.count("num.sop.regenerated_near_threshold", skipped)
     return {"kind": "num.sop", "steps": steps, "patience": patience, "d": d, "D": D, "vkind": vkind, "dtype": dtype,
-            "has_reject": has_reject, "layout": rng.choice(["fresh", "fresh", "slice", "reuse"]),
+            "has_reject": has_reject, "layout": rng.choice(["fresh", "fresh", "slice", "reuse", "param"]),
             "probe_at": rng.choice([None, None, 0, rng.randrange(n)]),
             # verbose printing divides python floats ((last-loss)/(last+1e-31)): real optimizers hand tensors, so the
             # verbose flag is exercised with tensor readings only
@@ -997,6 +998,8 @@ def check_sop_num(ctx: Ctx, case, model_reply=None) -> bool:
     opt = FakeOpt(case["has_reject"])
     sch = new_sop(case, opt)
     layout = case.get("layout", "fresh") if case["vkind"] != "pyfloat" else "fresh"
+    if layout == "param" and case.get("verbose"):
+        layout = "fresh"    # observation: the verbose print formats optimizer.loss with '{:.6e}', which nn.Parameter rejects
     dt = U.TD[case["dtype"]]
     big = torch.full((5,), 9.75, dtype=dt)   # reuse: the optimizer updates its own last/loss tensors in place
     obs, codes = [], []
@@ -1026,6 +1029,8 @@ def check_sop_num(ctx: Ctx, case, model_reply=None) -> bool:
                 a, b = last, loss
             elif layout == "fresh":
                 a, b = torch.tensor(last, dtype=dt), torch.tensor(loss, dtype=dt)
+            elif layout == "param":      # the optimizer's loss IS a model parameter
+                a, b = torch.tensor(last, dtype=dt), torch.nn.Parameter(torch.tensor(loss, dtype=dt))
             else:
                 if layout == "slice":
                     big = torch.full((5,), 9.75, dtype=dt)
@@ -1037,7 +1042,7 @@ def check_sop_num(ctx: Ctx, case, model_reply=None) -> bool:
             else:
                 sch.step(loss=opt.loss)
             codes.append(U.ctl_code(sch))
-            if case["vkind"] != "pyfloat" and (float(a) != last or float(b) != loss or (layout != "fresh" and big.tolist() !=
+            if case["vkind"] != "pyfloat" and (float(a.detach()) != last or float(b.detach()) != loss or (layout in ("slice", "reuse") and big.tolist() !=
                                                 [9.75, last, 9.75, loss, 9.75])):
                 ctx.fail(dict(case, step=i), f"purity: StopOnPlateau.step modified optimizer.last/.loss ({float(a)}, {float(b)}) "
                                              f"!= ({last}, {loss})")
@@ -1321,11 +1326,14 @@ def run_defaults(ctx: Ctx, n_cases):
                 st.tol = 0.0
             elif args is not None:
                 st = P.utils.ReduceToBason(args["steps"], **{k: v for k, v in args.items() if k != "steps" and v is not None})
+            # the optional argument really OMITTED (not passed, not None) in half of the default constructions
+            kw = {} if (st is None and rng.random() < 0.5) else {"stepper": st}
+            case["stepper_argument"] = "omitted" if not kw else ("None" if st is None else "given")
             if kind == "icp":
-                st = P.module.ICP(stepper=st).stepper
+                st = P.module.ICP(**kw).stepper
             elif kind == "mpc":
                 sysm, Q, p_, T, x0, ns, nc = mpc_parts()
-                st = P.module.MPC(sysm, Q, p_, T, stepper=st).stepper
+                st = P.module.MPC(sysm, Q, p_, T, **kw).stepper
         except Exception as e:
             ctx.fail(case, f"raises: constructor raised {type(e).__name__}: {str(e)[:100]}")
             continue
@@ -1351,6 +1359,119 @@ def run_defaults(ctx: Ctx, n_cases):
                    0.0 if case["ctl"] == "sop" else (1e-5 if a["tol"] is None else a["tol"]))
             if tuple(real) != doc:
                 ctx.fail(case, f"defaults: {case['ctl']} with arguments {case['args']} installs {real}, documented {doc}")
+
+
+def doc_default_stop(values, budget, dtype="float64"):
+    """number of controller steps the DOCUMENTED default stepper (patience 5, decreasing 1e-3, tol 1e-5, the given
+    budget) allows on the scalar losses `values` — from the property's text, nothing read from any object"""
+    obs, last = [], None
+    for v in values:
+        nd, bl, _ = U.rtb_obs_exact(last, [v], U.rnd(1e-3, dtype), U.rnd(1e-5, dtype), dtype)
+        obs.append((nd, bl, False))
+        last = [v]
+        if U.spec_causes("rtb", budget, 5, obs, len(obs) - 1):
+            return len(obs)
+    return None
+
+
+def check_shared_defaults(ctx: Ctx, case) -> bool:
+    """SEVERAL objects built in one process with every optional argument OMITTED, used interleaved: each must behave
+    with the DOCUMENTED defaults (MPC: ReduceToBason(steps=10) minus one = 9 controller steps + 1 final LQR; ICP: 200
+    steps; patience 5, decreasing 1e-3, tol 1e-5) — the oracle never reads a value back from the objects"""
+    import random
+    import pypose.module.icp as icpmod
+    P = pp()
+    r = random.Random(case["seed"])
+    sysm, Q, p_, T, x0, ns, nc = mpc_parts()
+    ok = True
+    try:
+        objs = []
+        for kind in case["kinds"]:
+            if kind == "mpc":
+                objs.append(("mpc", P.module.MPC(sysm, Q, p_, T)))
+            elif kind == "icp":
+                objs.append(("icp", P.module.ICP()))
+            elif kind == "rtb":
+                objs.append(("rtb", P.utils.ReduceToBason(case["steps"])))
+            else:
+                objs.append(("sop", P.optim.scheduler.StopOnPlateau(FakeOpt(True), case["steps"])))
+        g = torch.Generator().manual_seed(case["seed"])
+        src = torch.randn(4, 3, generator=g)
+        tgt = src + 0.1
+        oknn = icpmod.knn
+        for _ in range(case["rounds"]):
+            order = list(range(len(objs)))
+            r.shuffle(order)
+            for idx in order:
+                kind, o = objs[idx]
+                mode = r.choice(["dec", "plateau"])
+                if kind == "mpc":
+                    stub = StubLQR(T, ns, nc)
+                    stub.costs = [100.0 * 0.5 ** i if (mode == "dec" or i < 2) else 100.0 * 0.25 for i in range(16)]
+                    o.lqr = stub
+                    o(1, x0)
+                    want = doc_default_stop(stub.costs, 9)      # documented: ReduceToBason(steps=10), one taken off
+                    if stub.n != want + 1:
+                        ctx.fail(dict(case, object=idx), f"shared-default: default MPC #{idx} of {len(objs)} objects made {stub.n} "
+                                 f"LQR calls ({mode} costs); documented default stepper (10 steps, patience 5): {want} + 1")
+                        ok = False
+                elif kind == "icp":
+                    it = [0]
+
+                    def sknn(*a, **k):
+                        d, i = oknn(*a, **k)
+                        v = 0.99 ** it[0] if (mode == "dec" or it[0] < 3) else 0.99 ** 3
+                        it[0] += 1
+                        if it[0] > 210:
+                            raise IndexError("runaway")
+                        return torch.full_like(d, v), i
+                    icpmod.knn = sknn
+                    try:
+                        o(src, tgt)
+                    finally:
+                        icpmod.knn = oknn
+                    want = doc_default_stop([U.rnd(0.99 ** i if (mode == "dec" or i < 3) else 0.99 ** 3, "float32") for i in range(205)],
+                                            200, "float32")
+                    if it[0] != want:
+                        ctx.fail(dict(case, object=idx), f"shared-default: default ICP #{idx} made {it[0]} iterations ({mode}); "
+                                                         f"documented default stepper (200 steps, patience 5): {want}")
+                        ok = False
+                elif kind == "rtb":
+                    o.reset()
+                    n = 0
+                    while o.continual() and n < case["steps"] + 10:
+                        o.step(8.0 * 0.5 ** n if (mode == "dec" or n < 1) else 4.0)
+                        n += 1
+                    want = doc_default_stop([U.rnd(8.0 * 0.5 ** i if (mode == "dec" or i < 1) else 4.0, "float32") for i in range(50)],
+                                            case["steps"], "float32")
+                    if n != want:
+                        ctx.fail(dict(case, object=idx), f"shared-default: ReduceToBason({case['steps']}) #{idx} with defaults "
+                                                         f"stopped after {n} steps ({mode}); documented defaults give {want}")
+                        ok = False
+        # the objects must still hold the documented budgets after all the interleaved use of the others
+        for idx, (kind, o) in enumerate(objs):
+            doc = {"mpc": 9, "icp": 200}.get(kind)
+            if doc is not None and o.stepper.max_steps != doc:
+                ctx.fail(dict(case, object=idx), f"shared-default: default {kind.upper()} #{idx} ends with stepper.max_steps="
+                                                 f"{o.stepper.max_steps}, documented {doc}")
+                ok = False
+    except IndexError:
+        ctx.fail(case, "bound: a default-constructed driver ran away")
+        return False
+    except Exception as e:
+        ctx.fail(case, f"raises: default-constructed objects raised {type(e).__name__}: {str(e)[:120]}")
+        return False
+    return ok
+
+
+def run_shared_defaults(ctx: Ctx, n_cases):
+    rng = ctx.rng
+    for _ in range(n_cases):
+        c = {"kind": "shared_defaults", "kinds": [rng.choice(["mpc", "mpc", "icp", "rtb", "sop"]) for _ in range(rng.randint(2, 5))],
+             "steps": rng.choice([3, 8, 30]), "rounds": rng.choice([1, 2]), "seed": rng.randrange(1 << 30)}
+        guarded(ctx, c, check_shared_defaults, ctx, c)
+        ctx.note_case(("shared_defaults", tuple(c["kinds"]), c["steps"], c["rounds"]), True)
+        ctx.count("shared_defaults.objects", len(c["kinds"]))
 
 
 def json_key(o):
@@ -1449,7 +1570,9 @@ def gen_big_case(ctx: Ctx, N=None):
     shapes = [[N]] + [[a, N // a] for a in (2, 3, 5, 7, 113, 257) if N % a == 0] + [[1, N], [N, 1]]
     modes = ["dec", "plateau_one", "plateau_all", "plateau_all_but_one", "below_all_but_one", "below_all"]
     return {"kind": "big", "N": N, "shape": rng.choice(shapes), "dtype": rng.choice(["float64", "float32"]),
-            "special": rng.choice([0, N - 1, N - 1, rng.randrange(N)]), "probe": rng.randrange(N),
+            # the special element: first, last, or inside the remainder n % 2^k of some block size
+            "special": rng.choice([0, N - 1, N - 1, rng.randrange(N), N - 1 - (N - 1) % 4096 + rng.randrange(max((N - 1) % 4096, 1)),
+                                   max(N - 37, 0), N - 2]), "probe": rng.randrange(N),
             "steps": rng.choice([4, 9]), "patience": rng.choice([1, 2]), "klass": rng.choice(KLASSES),
             "modes": [rng.choice(modes) for _ in range(5)]}
 
@@ -1461,6 +1584,89 @@ def run_big(ctx: Ctx, sizes):
         ctx.note_case(("big", c["N"], tuple(c["shape"]), c["dtype"], c["special"], tuple(c["modes"])), True)
         ctx.count("big.cases")
         ctx.count("big.elements", c["N"])
+
+
+# ----------------------------------------------------------------------------- every loss dtype torch accepts (class 30)
+
+NARROW = {"float16": torch.float16, "bfloat16": torch.bfloat16, "int32": torch.int32, "int16": torch.int16, "int8": torch.int8,
+          "int64": torch.int64}
+
+
+def gen_narrow_case(ctx: Ctx, n_max=12):
+    rng = ctx.rng
+    dt = rng.choice(list(NARROW))
+    isint = dt.startswith("int")
+    vals = [96, 64, 48, 32, 24, 16, 12, 8, 6, 4, 3, 2, 1, 0, -1, -2, -4] if isint else \
+        [8.0, 6.0, 4.0, 3.0, 2.0, 1.5, 1.0, 0.75, 0.5, 0.375, 0.25, 0.125, 0.0, -0.5, -1.0, -2.0]
+    shape = rng.choice([[], [], [2], [3], [2, 2], [5]])
+    B = int(math.prod(shape)) if shape else 1
+    events = []
+    for _ in range(rng.randint(1, n_max)):
+        if events and rng.random() < 0.08:
+            events.append(["R"])
+            continue
+        v = [float(rng.choice(vals))] * B if rng.random() < 0.4 else [float(rng.choice(vals)) for _ in range(B)]
+        events.append(["S", v])
+    verbose, style = draw_style(rng, 0.3)
+    return {"kind": "narrow", "steps": rng.choice([2, 3, 5, 8, 30]), "patience": rng.choice([1, 2, 2, 3]),
+            "d": rng.choice([0.5, 1.0, 0.25, 0.0, -0.5, 2.0]), "tol": rng.choice([1.0, 0.5, 0.25, 0.0625, 0.0, -1.0, 3.0]),
+            "ndtype": dt, "shape": shape, "verbose": verbose, "style": style, "klass": rng.choice(KLASSES), "events": events}
+
+
+def check_narrow(ctx: Ctx, case, model_reply=None) -> bool:
+    """losses in float16 / bfloat16 / int8 / int16 / int32 / int64 tensors: values and thresholds are small dyadic numbers,
+    exactly representable in every one of these dtypes, so the documented decisions do not depend on the dtype"""
+    dt = NARROW[case["ndtype"]]
+    st = new_rtb(case)
+    segs, real, last, ok = [[]], [], None, True
+    for ei, ev in enumerate(case["events"]):
+        try:
+            if ev[0] == "R":
+                st.reset()
+                real.append((U.ctl_code(st), 2, 2))
+                segs.append([])
+                last = None
+                continue
+            x = torch.tensor(ev[1], dtype=torch.float64).to(dt).reshape(case["shape"])
+            st.step(x)
+        except Exception as e:
+            ctx.fail(dict(case, event=ei), f"raises: step on a {case['ndtype']} loss raised {type(e).__name__}: {str(e)[:100]}")
+            return False
+        nd, bl, _ = U.rtb_obs_exact(last, ev[1], case["d"], case["tol"], "float64")
+        segs[-1].append((nd, bl, False))
+        real.append((U.ctl_code(st), int(nd), int(bl)))
+        last = ev[1]
+        want = spec_trace_segment("rtb", case["steps"], case["patience"], segs[-1], 0)[-1]
+        s_, pc_, c_ = U.st_decode(real[-1][0])
+        if (c_, pc_) != want or s_ != len(segs[-1]):
+            ctx.fail(dict(case, event=ei), f"continual: {case['ndtype']} loss {ev[1][:5]} (shape {case['shape']}): (steps, continual, "
+                                           f"patience_count)={(s_, c_, pc_)}; documented causes give {(len(segs[-1]), want[0], want[1])}")
+            ok = False
+            break
+        if st.last.dtype != dt or U.flat(st.last) != [float(v) for v in ev[1]]:
+            ctx.fail(dict(case, event=ei), f"metadata: stepper.last is {st.last.dtype} {U.flat(st.last)[:4]} after a {case['ndtype']} "
+                                           f"loss {ev[1][:4]}")
+            ok = False
+    if model_reply is not None:
+        st_, toks = common.parse_reply(model_reply)
+        w = [int(t) for t in toks] if st_ == "ok" else []
+        want = [x for r in real for x in r]
+        if w[:len(want)] != want:
+            j = next((i for i, (a, b) in enumerate(zip(w, want)) if a != b), 0) // 3
+            ctx.disagree("narrow", dict(case, event=j), f"event {j}: implementation {want[3 * j:3 * j + 3]} model {w[3 * j:3 * j + 3]} "
+                                                        f"[{case['ndtype']}]")
+            ok = False
+    return ok
+
+
+def run_narrow(ctx: Ctx, n_cases):
+    cases = [gen_narrow_case(ctx) for _ in range(n_cases)]
+    lines = [rtb_num_line(dict(c, D=c["d"], TOL=c["tol"], events=[e if e[0] == "R" else ["S", e[1], "fresh"] for e in c["events"]]))
+             for c in cases]
+    for c, rep in zip(cases, ctx.driver.run(lines)):
+        guarded(ctx, c, check_narrow, ctx, c, rep)
+        ctx.note_case(("narrow", c["ndtype"], tuple(c["shape"]), c["steps"], c["patience"], c["d"], c["tol"], len(c["events"])), True)
+        ctx.count(f"narrow.{c['ndtype']}")
 
 
 # ----------------------------------------------------------------------------- several controllers alive at once
@@ -1747,6 +1953,7 @@ def gen_opt_case(ctx: Ctx):
     c["steps"] = rng.choice([1, 1, 2, 3, 4, 5, 6, 8, 12, 0])
     c["pre"] = rng.choice([0, 0, 0, 1, 2, 3])
     c["raise_at"] = rng.choice([None, None, 0, 1, 2, 3])   # iteration of optimize() in which optimizer.step raises
+    c["returns"] = rng.choice(["fresh", "fresh", "view", "parameter"])   # what optimizer.step hands back: a view of its own buffer …
     n = max(c["steps"], 1) + c["pre"] + 3
     mode = rng.choice(["dec", "mixed", "mixed", "plateau"])
     D = c["D"]
@@ -1776,6 +1983,13 @@ def check_opt_scripted(ctx: Ctx, case, want_model=True):
     sch = new_sop(case, opt)
     conv = (lambda v: v) if case["vkind"] == "pyfloat" else (lambda v: torch.tensor(v, dtype=U.TD[case["dtype"]]))
     opt.script = [(conv(a), conv(b), rc) for a, b, rc in case["script"]]
+    returns = case.get("returns")
+    if returns == "parameter" and case.get("verbose"):
+        returns = "view"     # observation: the verbose print cannot format an nn.Parameter ('{:.6e}')
+    if returns in ("view", "parameter") and case["vkind"] != "pyfloat":
+        opt.own_buffer = torch.zeros(2, dtype=U.TD[case["dtype"]])
+        opt.as_parameter = returns == "parameter"
+        opt.script = [(a, b, rc) for a, b, rc in case["script"]]
     obs = [(U.abs_nodec(a, b, case["D"], case["dtype"])[0], False, rc is not None and rc > 0) for a, b, rc in case["script"]]
     for _ in range(case["pre"]):
         loss = opt.step()
@@ -1999,7 +2213,12 @@ class StubLQR(torch.nn.Module):
             raise U.SolverFailed("LQR failed (injected)")
         c = self.costs[self.n]   # IndexError = runaway loop
         self.n += 1
-        return torch.zeros(1, self.T + 1, self.ns), torch.zeros(1, self.T, self.nc), torch.tensor([c], dtype=torch.float64)
+        if getattr(self, "own_buffer", None) is not None:      # the solver hands back a view of a buffer it updates in place
+            self.own_buffer[1] = c
+            cost = self.own_buffer[1:2]
+        else:
+            cost = torch.tensor([c], dtype=torch.float64)
+        return torch.zeros(1, self.T + 1, self.ns), torch.zeros(1, self.T, self.nc), cost
 
 
 def gen_costs(rng, n, D, TOL, mode):
@@ -2085,6 +2304,8 @@ def check_mpc(ctx: Ctx, case):
             stub = StubLQR(T, ns, nc)
             stub.costs = gen_costs(random.Random(call["seed"]), max(case["steps"], 1) + 4, D, TOL, call["mode"])
             stub.raise_at = call.get("raise_at")
+            if call["seed"] % 4 == 1:
+                stub.own_buffer = torch.zeros(3, dtype=torch.float64)
             mpc.lqr = stub
         try:
             gcall = torch.Generator().manual_seed(call["seed"])
@@ -2438,6 +2659,14 @@ def corpus_cases():
                                                        S([1.0, 1.0])]),
         _rtb(40, 2, 0.0, -1.0, "pyfloat", "float32", [], [S([4.0]), S([4.0]), S([4.0]), S([4.5]), S([5.0])]),
         _rtb(40, 2, -0.5, -1.0, "t0d", "float64", [], [S([1.0]), S([2.0]), S([4.0]), S([8.0]), S([17.0]), S([35.0])]),
+        # the band between round-off and an `isclose`-style tolerance (1e-5 relative, 1e-8 absolute): loss just above / just
+        # below tol, relative decrease just above / below `decreasing`, tiny losses of either sign against tol = 0
+        _rtb(40, 3, 0.5, 0.25, "t0d", "float64", [], [S([8.0]), S([0.25 * (1 + 2.0 ** -20)]), S([0.25 * (1 + 2.0 ** -20)]),
+                                                     ["R"], S([0.25 * (1 - 2.0 ** -20)]), ["R"], S([4.0]),
+                                                     S([4.0 / (1 + 0.5 * (1 + 2.0 ** -20))]), ["R"], S([4.0]),
+                                                     S([4.0 / (1 + 0.5 * (1 - 2.0 ** -20))]), S([1.0])]),
+        _rtb(40, 3, 1e-3, 0.0, "batch", "float64", [2], [S([1e-9, 1e-9]), S([1e-9, -1e-9]), S([-1e-9, -1e-12]), S([0.0, -1e-12]),
+                                                        S([1e-12, 1e-12])]),
         # long history: counters beyond 256, patience 257 reached exactly at step 258, budget 290
         _rtb(290, 257, 1e-3, 1e-9, "t0d", "float32", [], plateau),
     ]
@@ -2535,16 +2764,20 @@ def run_corpus(ctx: Ctx):
         run_num_rtb(ctx, 160, 40)
         run_num_rtb(ctx, 2, 420, long=True)
         run_num_sop(ctx, 120, 40)
-        run_big(ctx, [16385, 65537, 16384, 1025])
-        for N in (16385, 65537):        # the LAST / FIRST element alone decides
+        run_big(ctx, [16385, 65537, 16384, 1025, 2 ** 17 + 1])
+        for N in (16385, 65537, 2 ** 18 + 37):        # the LAST / FIRST element alone decides
             for sp in (N - 1, 0):
                 c = {"kind": "big", "N": N, "shape": [N], "dtype": "float64", "special": sp, "probe": N // 3, "steps": 9, "patience": 2,
                      "klass": "lib", "modes": ["dec", "below_all_but_one", "plateau_all_but_one", "plateau_one", "plateau_all", "below_all"]}
                 guarded(ctx, c, check_big, ctx, c)
                 ctx.note_case(("big.corpus", N, sp), True)
+        run_narrow(ctx, 120)
         run_numx_rtb(ctx, 250)
         run_numx_sop(ctx, 150)
         run_defaults(ctx, 40)
+        for kinds in (["mpc", "mpc", "mpc"], ["icp", "mpc", "icp", "mpc"], ["rtb", "rtb", "sop", "sop"]):
+            c = {"kind": "shared_defaults", "kinds": kinds, "steps": 8, "rounds": 2, "seed": 5}
+            guarded(ctx, c, check_shared_defaults, ctx, c)
         run_interleave(ctx, 30)
         run_copies(ctx, 60)
         run_drv_optimize(ctx, 120)
@@ -2604,10 +2837,13 @@ def _run(ctx: Ctx):
     run_num_rtb(ctx, ctx.pick(300, 2500), 40 if q else 150)
     run_num_rtb(ctx, ctx.pick(2, 12), 420 if q else 1500, long=True)
     run_num_sop(ctx, ctx.pick(350, 2500), 40 if q else 150)
-    run_big(ctx, [16385, 65537, 32769] if q else [2 ** k + e for k in (10, 12, 13, 14, 15, 16, 17) for e in (-1, 0, 1)])
+    run_big(ctx, [16385, 65537, 131073] if q else [2 ** k + e for k in (10, 12, 13, 14, 15, 16, 17) for e in (-1, 0, 1)]
+            + [2 ** 18 + 1, 2 ** 18 + 37, 2 ** 20 + 1])
+    run_narrow(ctx, ctx.pick(150, 1500))
     run_numx_rtb(ctx, ctx.pick(300, 4000))
     run_numx_sop(ctx, ctx.pick(250, 2500))
     run_defaults(ctx, ctx.pick(40, 200))
+    run_shared_defaults(ctx, ctx.pick(6, 60))
     run_interleave(ctx, ctx.pick(60, 400))
     run_copies(ctx, ctx.pick(120, 800))
     run_drv_optimize(ctx, ctx.pick(400, 4000))
@@ -2677,6 +2913,10 @@ def _replay_case(ctx: Ctx, c, kind) -> bool:
         check_sopx(ctx, c, ctx.driver.run([sopx_line(c)])[0])
     elif kind == "defaults":
         pass
+    elif kind == "shared_defaults":
+        check_shared_defaults(ctx, c)
+    elif kind == "narrow":
+        check_narrow(ctx, c)
     elif kind == "big":
         check_big(ctx, c)
     elif kind == "interleave":
